@@ -27,7 +27,12 @@ func main() {
 	neutralOnly := flag.Bool("neutral", false, "run only the specificity corpus (/verif/neutral refactorings) for the property")
 	probeOpt := flag.Bool("probe-optional", false, "exploration aid: list unguarded dereferences of optional API pointer fields")
 	probeF := flag.String("probe-facts", "", "exploration aid: print the branch facts at every call and return of the named function")
+	all := flag.Bool("all", false, "corpus aid: run every property's quick rule set over one load of the tree; prints '== <id> rc=<n>' after each")
 	flag.Parse()
+	if *all {
+		runAll(*repo, *out)
+		return
+	}
 	if *probeF != "" {
 		probeFacts(*repo, *probeF)
 		return
@@ -226,4 +231,46 @@ func writeManifest(out string) {
 	}
 	b, _ := json.MarshalIndent(m, "", " ")
 	fmt.Println(string(b))
+}
+
+// runAll decides every property on one load of the tree (two: the whole-program properties get
+// their own). Used by the corpus matrices, where 20 separate loads per patch dominate the time.
+func runAll(repo, out string) {
+	var ids []string
+	for id := range rules.Registry {
+		ids = append(ids, id)
+	}
+	sort.Strings(ids)
+	progs := map[bool]*engine.Program{}
+	worst := 0
+	for _, id := range ids {
+		pr := rules.Registry[id]
+		p, ok := progs[pr.Whole]
+		if !ok {
+			var err error
+			p, err = engine.Load(repo, pr.Whole, nil)
+			if err != nil {
+				fmt.Printf("LOAD-FAILURE property=%s: %v\n== %s rc=2\n", id, err, id)
+				worst = 2
+				continue
+			}
+			progs[pr.Whole] = p
+		}
+		code := 2
+		func() {
+			defer func() {
+				if r := recover(); r != nil {
+					fmt.Printf("ANALYSER-PANIC property=%s: %v\n", id, r)
+				}
+			}()
+			c := engine.NewCtx(p, id, "quick", out)
+			pr.Run(c)
+			code = c.Finish(pr.Explanation, pr.NotDecided, pr.Assumptions)
+		}()
+		fmt.Printf("== %s rc=%d\n", id, code)
+		if code > worst {
+			worst = code
+		}
+	}
+	os.Exit(worst)
 }
